@@ -149,7 +149,7 @@ def run(tier, seed):
         rt = ref.get("trace") if ref else None
         if rt and rt["pages"] > progs[pid]["min"]: dist["memory_grown_programs"] += 1
         # expected listener events: what a runtime that shares nothing reports (else the most common count)
-        on = [e for e in es if e["cfg"]["listener"] and not e.get("err")]
+        on = [e for e in es if e["cfg"]["listener"] and not e["cfg"].get("decline") and not e.get("err")]
         alone = [e["lsn"] for e in on if e["cfg"]["cache"] == "none"] or [e["lsn"] for e in on]
         lsn_ref = max(alone, key=alone.count) if alone else None
         for e in es:
@@ -164,6 +164,9 @@ def run(tier, seed):
             dist["listener_events"] += sum(e["lsn"])
             distinct.add(json.dumps([pid, e["engine"], cf, e["role"]], sort_keys=True))
             axis = {"engine": e["engine"], "cache": cf["cache"], "role": e["role"]}
+            # the runtime that comes SECOND to an in-memory cache shared with a runtime that also listens
+            if (cf["cache"].startswith("memshared") and e["role"] == ("y" if cf["cache"].endswith("-ab") else "x")) or (cf["cache"] == "mem" and e["role"] == "x"):
+                axis["second_runtime_on_shared_memory_cache"] = True
             if e.get("err"):
                 report({"kind": "execution-failed", **axis}, {"exec": e, "program": progs.get(pid)})
                 continue
@@ -171,7 +174,7 @@ def run(tier, seed):
             if why:
                 report({"kind": "trace-differs", **axis}, {"exec": e, "reference": ref, "first_difference": why, "program": progs.get(pid)})
             # instrumentation served must be the one this runtime asked for
-            if cf["listener"]:
+            if cf["listener"] and not cf.get("decline"):
                 if e["lsn"] != lsn_ref or e["lsn"][0] == 0:
                     report({"kind": "listener-events-differ", **axis}, {"exec": e, "expected": lsn_ref, "program": progs.get(pid)})
             elif e["lsn"] != [0, 0, 0]:
